@@ -1,0 +1,105 @@
+// Verification shim. Compiled only with `--cfg clock_bound_verif`; without that flag the crate
+// uses `std::sync::atomic` directly and contains none of this.
+//
+// Thin `#[repr(transparent)]` wrappers around the std atomics that report every shared access to
+// callbacks installed by an external harness (scheduler and memory model live outside this
+// repository). With no callbacks installed everything passes straight through to std.
+
+use std::sync::RwLock;
+
+pub struct Hooks {
+    /// (address, width in bytes, ordering, value really in memory) -> value the load returns
+    pub load: fn(usize, u8, atomic::Ordering, u64) -> u64,
+    /// (address, width in bytes, ordering, value); the real store is performed afterwards
+    pub store: fn(usize, u8, atomic::Ordering, u64),
+    pub fence: fn(atomic::Ordering),
+    /// record copy into the segment: (destination address, source bytes); the real copy follows
+    pub data_write: fn(usize, &[u8]),
+    /// record copy out of the segment: (source address, bytes really read, to be overwritten)
+    pub data_read: fn(usize, &mut [u8]),
+    /// named program point (may panic: crash injection)
+    pub point: fn(&'static str),
+}
+
+pub static HOOKS: RwLock<Option<Hooks>> = RwLock::new(None);
+
+fn with_hooks<R>(f: impl FnOnce(Option<&Hooks>) -> R) -> R {
+    let guard = HOOKS.read().unwrap_or_else(|e| e.into_inner());
+    f(guard.as_ref())
+}
+
+pub fn point(name: &'static str) {
+    let p = with_hooks(|h| h.map(|h| h.point));
+    if let Some(p) = p {
+        p(name)
+    }
+}
+
+pub unsafe fn data_write<T: Copy>(dst: *mut T, src: &T) {
+    let f = with_hooks(|h| h.map(|h| h.data_write));
+    if let Some(f) = f {
+        let bytes = std::slice::from_raw_parts(src as *const T as *const u8, std::mem::size_of::<T>());
+        f(dst as usize, bytes)
+    }
+}
+
+pub unsafe fn data_read<T: Copy>(src: *const T, real: T) -> T {
+    let f = with_hooks(|h| h.map(|h| h.data_read));
+    let mut value = real;
+    if let Some(f) = f {
+        let bytes =
+            std::slice::from_raw_parts_mut(&mut value as *mut T as *mut u8, std::mem::size_of::<T>());
+        f(src as usize, bytes)
+    }
+    value
+}
+
+pub mod atomic {
+    pub use std::sync::atomic::Ordering;
+
+    pub fn fence(order: Ordering) {
+        let f = super::with_hooks(|h| h.map(|h| h.fence));
+        if let Some(f) = f {
+            f(order)
+        }
+        std::sync::atomic::fence(order)
+    }
+
+    macro_rules! shim_atomic {
+        ($name:ident, $inner:ty, $prim:ty, $width:expr) => {
+            #[repr(transparent)]
+            #[derive(Debug)]
+            pub struct $name($inner);
+
+            impl $name {
+                pub const fn new(v: $prim) -> Self {
+                    $name(<$inner>::new(v))
+                }
+
+                pub fn into_inner(self) -> $prim {
+                    self.0.into_inner()
+                }
+
+                pub fn load(&self, order: Ordering) -> $prim {
+                    let real = self.0.load(order);
+                    let f = super::with_hooks(|h| h.map(|h| h.load));
+                    match f {
+                        Some(f) => f(self as *const Self as usize, $width, order, real as u64) as $prim,
+                        None => real,
+                    }
+                }
+
+                pub fn store(&self, val: $prim, order: Ordering) {
+                    let f = super::with_hooks(|h| h.map(|h| h.store));
+                    if let Some(f) = f {
+                        f(self as *const Self as usize, $width, order, val as u64)
+                    }
+                    self.0.store(val, order)
+                }
+            }
+        };
+    }
+
+    shim_atomic!(AtomicU16, std::sync::atomic::AtomicU16, u16, 2);
+    shim_atomic!(AtomicU32, std::sync::atomic::AtomicU32, u32, 4);
+}
